@@ -102,6 +102,9 @@ def gen_run(rng, cfg):
     elif style == "parser":
         mix = {"parse": 1.0, "lex": 0.0, "gen": 0.0, "parse_file": 0.2}
     pg = W.ProgGen(rng, actor=None, size=size, depth=depth, sloppy=sloppy, marks=False)
+    if rng.random() < 0.2:
+        # file-name theme: many line markers, names from a small pool of spellings
+        pg.name_pool_rate, pg.directive_rate = 0.9, 0.35
     pool = []
     for _ in range(rng.randrange(2, 6)):
         x = rng.random()
@@ -166,7 +169,10 @@ def gen_run(rng, cfg):
                         items = ["typedef int T;", "void f(void) " + "{ int U; " * n + "}" * n]
                     else:
                         items = ["typedef int T;", "int x = a" + "[a" * n + "]" * n + ";"]
-                    op["reclimit"] = rng.choice([40, 80, 150, 400])
+                    if rng.random() < 0.7:
+                        op["reclimit"] = rng.choice([40, 80, 150, 400])
+                    else:
+                        items = W.deep_program(rng)  # against the natural limit
                     op["untraced"] = True
                     dirty_next = True
         elif kind == "parse_file":
@@ -271,6 +277,7 @@ def op_key(op):
     if op["op"] == "visit":
         k["visitor"] = op.get("visitor")
         k["tag"] = op.get("tag")
+        k["show"] = bool(op.get("show"))
     if op.get("reclimit"):
         k["reclimit"] = op["reclimit"]
     return digest(k)
@@ -504,3 +511,18 @@ def sample_view(spec, result):
             }
         )
     return {"history": out}
+
+
+def rec_mismatches(spec, result, baselines):
+    """[(actor, op, which side raised RecursionError)] for operations where the
+    reused instance and the pristine baseline disagree on RecursionError."""
+    out = []
+    for i, (r, b) in enumerate(zip(result["actors"][0], baselines)):
+        if b is None or not r.get("out") or not b.get("out"):
+            continue
+        rk, bk = r["out"]["k"], b["out"]["k"]
+        if rk in ("abort", "hang") or bk in ("abort", "hang"):
+            continue
+        if (rk == "rec") != (bk == "rec"):
+            out.append((0, i, "reused instance" if rk == "rec" else "pristine baseline"))
+    return out
